@@ -65,6 +65,7 @@ struct VolRoundtrip : Family {
 				// near-equal names: same spelling except for characters 0x20 apart that are not a letter's two cases
 				if (!names.empty() && r.chance(1, 4)) { std::string sib = bit5Sibling(names[r.below(names.size())], r); if (!sib.empty()) nm = sib; }
 				else if (r.chance(1, 6)) { static const char* P[] = {"[", "{", "@", "`", "^", "~", "]", "}"}; nm.insert(r.below(nm.size() + 1), P[r.below(8)]); }
+				if (!names.empty() && r.chance(1, 6)) nm = tieProneSibling(names[r.below(names.size())], r);
 				bool clash = false;
 				for (auto& o : names) if (ref::nameEqualNoCase(o, nm)) clash = true;
 				if (!clash) break;
